@@ -1927,14 +1927,25 @@ func main() {
 		allFuncs = append(allFuncs, fn)
 	}
 	sort.Slice(allFuncs, func(i, j int) bool { return w.funcDecl[allFuncs[i]].Pos() < w.funcDecl[allFuncs[j]].Pos() })
-<<<<<<< HEAD
 	type wantVar struct {
 		v    *types.Var
 		unit string
 	}
 	var wantVars []wantVar
+	constUnits := map[string]string{}
 	for _, e := range entries {
 		matched := false
+		if strings.HasPrefix(e.pat, "const ") {
+			// `const pkg.Name` (package-level) or `const pkg.Func:name` / `const pkg.Type.Method:name`
+			// (function-local): emitted as a Definition so that theorems consume the source's value.
+			key := strings.TrimSpace(strings.TrimPrefix(e.pat, "const "))
+			if it := g.constItem(key, allFuncs); it != nil {
+				constUnits[it.goKey] = e.unit
+			} else {
+				g.notes = append(g.notes, "MISSING "+e.pat)
+			}
+			continue
+		}
 		if strings.HasPrefix(e.pat, "var ") {
 			// var pkg.Name : translate a never-assigned package-level variable (table) into this unit
 			key := strings.TrimSpace(e.pat[4:])
@@ -1948,19 +1959,6 @@ func main() {
 			}
 			if !matched {
 				g.notes = append(g.notes, "MISSING "+key)
-=======
-	constUnits := map[string]string{}
-	for _, e := range entries {
-		matched := false
-		if strings.HasPrefix(e.pat, "const ") {
-			// `const pkg.Name` (package-level) or `const pkg.Func:name` / `const pkg.Type.Method:name`
-			// (function-local): emitted as a Definition so that theorems consume the source's value.
-			key := strings.TrimSpace(strings.TrimPrefix(e.pat, "const "))
-			if it := g.constItem(key, allFuncs); it != nil {
-				constUnits[it.goKey] = e.unit
-			} else {
-				g.notes = append(g.notes, "MISSING "+e.pat)
->>>>>>> codec
 			}
 			continue
 		}
@@ -1981,7 +1979,6 @@ func main() {
 		}
 	}
 	unitOfKey := map[string]string{}
-<<<<<<< HEAD
 	for _, wv := range wantVars {
 		holder := &item{deps: map[string]bool{}}
 		n := g.global(wv.v, holder)
@@ -1989,10 +1986,9 @@ func main() {
 		if _, ok := unitOfKey[g.items[n].goKey]; !ok {
 			unitOfKey[g.items[n].goKey] = wv.unit
 		}
-=======
+	}
 	for k, u := range constUnits {
 		unitOfKey[k] = u
->>>>>>> codec
 	}
 	for _, wn := range wants {
 		k := funcKey(wn.fn)
